@@ -6,6 +6,8 @@ require (
 	github.com/kubewharf/kubebrain v0.0.0
 	github.com/kubewharf/kubebrain-client v0.2.1
 	github.com/tikv/client-go/v2 v2.0.1
+	k8s.io/apimachinery v0.20.4
+	k8s.io/client-go v0.20.2
 	k8s.io/klog/v2 v2.4.0
 )
 
